@@ -161,7 +161,12 @@ SeqEq(s, f(_), n) == Len(s) = n /\ \A j \in 1 .. n : s[j] = f(j - 1)
 TableRowOK(M, T, L, r, c, k, x) ==
   LET want == XorRows({r + j : j \in BitsOfInt(x, k)}, M.r) IN
   {cc \in T.r[L[x + 1]] : cc >= c} = {cc \in want : cc >= c}
-WordKernelFamily == {"code", "make_table", "parity64", "masks", "swap_bits", "spread_shrink", "lesser_lsb"}
+WordKernelFamily == {"code", "make_table", "parity64", "masks", "swap_bits", "spread_shrink", "lesser_lsb", "word_to_str"}
+\* m4ri_word_to_str: '1' (49) / ' ' (32) per bit from bit 0 on, with colon = 1 a ':' (58) BEFORE every fourth bit but the first
+RECURSIVE WordStr(_, _, _)
+WordStr(bits, colon, i) ==
+  IF i >= 64 THEN << >>
+  ELSE (IF colon = 1 /\ i % 4 = 0 /\ i # 0 THEN <<58>> ELSE << >>) \o <<IF i \in bits THEN 49 ELSE 32>> \o WordStr(bits, colon, i + 1)
 WordKernelOK(ev) ==
   LET op == ev.op  p == ev.p IN
   CASE op = "code" ->
@@ -194,6 +199,8 @@ WordKernelOK(ev) ==
          /\ BitsAt(p.L_shrink) = Shrink(from, p.Q, p.len, p.base)
          /\ BitsAt(p.L_back) = low                       \* mutually inverse
     [] op = "lesser_lsb" -> ev.ret = LesserLSB(BitsAt(p.L_a), BitsAt(p.L_b))
+    \* the text, its terminator inside the documented buffer size, nothing written behind the buffer
+    [] op = "word_to_str" -> p.guard = 1 /\ p.terminated = 1 /\ p.s = WordStr(BitsAt(p.L_w), p.colon, 0)
 
 \* file I/O (C18)
 IOFamily == {"png_roundtrip", "from_str", "jcf", "png_foreign"}
